@@ -252,6 +252,40 @@ def rule_k1(prog, adj):
             break
     else:
         r.ok()
+    # every state has a label set *of its own*: one mutable object stored
+    # for many keys (dict.fromkeys(states, set()), a default hoisted out of
+    # the loop) makes an atom added for one state appear on all of them
+    for (p, v) in res:
+        if isinstance(v, Raise):
+            continue
+        lab = p.heap[o.oid].fields.get(LABELS[0])
+        if not isinstance(lab, Obj) or p.heap[lab.oid].kind != 'dict':
+            continue
+        hd = p.heap[lab.oid]
+        shared = None
+        seen_vals = {}
+        for pt in hd.parts:
+            if not isinstance(pt.val, Obj) or \
+                    p.heap[pt.val.oid].kind not in ('set', 'list', 'dict'):
+                continue
+            hv = p.heap[pt.val.oid]
+            if pt.gens and hv.loops_len - hd.loops_len < len(pt.gens):
+                shared = pt
+            if pt.val.oid in seen_vals and seen_vals[pt.val.oid] != pt.key:
+                shared = pt
+            seen_vals[pt.val.oid] = pt.key
+        if shared is not None:
+            r.fail(Finding(
+                PROP, 'R-K-1', init.where(), init.short(),
+                'shared-label-set',
+                'the constructor stores one and the same set object as the '
+                'label set of several states (allocated once, outside the '
+                'iteration over the states): labelling one state -- '
+                'label_fair_states, the CTL* eliminator -- labels all of '
+                'them'))
+            break
+    else:
+        r.ok()
     # argument space
     nodes = [0, 1, 2]
     edge_sets = []
@@ -292,8 +326,10 @@ def rule_k1(prog, adj):
                         if got != want and bad is None:
                             bad = (Sv, S0v, Rv, Lv, got, want)
     except NotEvaluable as e:
-        raise Inconclusive('R-K-1', 'Kripke.__init__ not evaluable: %s' % e,
-                           init.where())
+        u = Inconclusive('R-K-1', 'Kripke.__init__ not evaluable: %s' % e,
+                         init.where())
+        u.partial = r        # what was established before (aliasing)
+        raise u
     r.inst(method=init.short(), argument_tuples=nm, paths=len(res))
     if bad:
         r.fail(Finding(
